@@ -615,6 +615,7 @@ func rulePanics(c *Ctx) {
 		}
 	}
 	c.Floor("PANICS", "panic obligations in unprotected regions", nOb, 10)
+	c.Floor("PANICS", "fallible calls with nil-able co-results in unprotected regions", ruleNilUse(c, fns), 3)
 }
 
 func isIntType(t types.Type) bool {
